@@ -15,6 +15,11 @@
  *                         permission bits / uid / gid of the node handed to
  *                         the formatter in that order, for devices the extra
  *                         is <c|b> <major> <minor>; nothing else is printed
+ *   C16.describe.succeeds     an entry whose path components are all legal
+ *                             file names is listed (failure only for names
+ *                             the unpacker refuses too, or out of memory -
+ *                             the path allocation may fail; allocations a
+ *                             repaired printer adds are not failed here)
  *   C16.print_name.eq_spec    the path field is exactly Q(path)
  *                             (spec/quote_spec.h) - for paths without tab,
  *                             CR and backslash
@@ -50,6 +55,7 @@ const char *g_sane_base;
 #define PATHMAX ((LEN + 1) * SHAPE + 2)
 
 static char *g_last_path;
+static bool g_oom;
 
 /* sqfs_tree_node_get_path under the contract established by C06
  * (C06.get_path.components / fail_null / complete) */
@@ -67,9 +73,11 @@ int sqfs_tree_node_get_path(const sqfs_tree_node_t *node, char **out)
 	}
 	if (TN(0)->name[0] != '\0')
 		return SQFS_ERROR_ARG_INVALID;
-	str = malloc(PATHMAX);
-	if (str == NULL)
+	str = verif_nd_bool("gp_oom") ? NULL : malloc(PATHMAX);
+	if (str == NULL) {
+		g_oom = true;
 		return SQFS_ERROR_ALLOC;
+	}
 	for (j = 1; j <= SHAPE; ++j) {
 		str[o++] = '/';
 		for (i = 0; TN(j)->name[i] != '\0'; ++i)
@@ -208,8 +216,16 @@ void harness(void)
 	VERIF_COVER(ret == 0);
 	VERIF_COVER(ret != 0);
 	if (ret != 0) {
-		/* refused names: diagnosed, nothing half-printed matters to
-		 * the parser because the tool fails */
+		/* only names the unpacker refuses as well (or no memory) make
+		 * the listing fail; diagnosed, and nothing half-printed
+		 * matters to the parser because the tool fails */
+		bool legal = TN(0)->name[0] == '\0';
+
+		for (j = 1; j <= SHAPE; ++j) {
+			if (!spec_component_ok((const char *)TN(j)->name))
+				legal = false;
+		}
+		VERIF_ASSERT(!legal || g_oom, "C16.describe.succeeds");
 		VERIF_ASSERT(g_err_msgs > 0, "C16.describe.failure_reported");
 		return;
 	}
